@@ -1,3 +1,4 @@
+import DcmVerif.Props.Source_group
 import DcmVerif.Proofs.GroupOrder
 /-! Property theorems for C18. Statements only; proofs are by reference to `Proofs/`. -/
 set_option autoImplicit false
